@@ -169,7 +169,7 @@ def main():
              "serves_properties": ["C14"],
              "kind_free_text": "Coq theory of well-formed UTF-8, char boundaries and the lossy decoder; differential execution against std::string::String, core::str::from_utf8, from_utf8_lossy, from_utf16"},
             {"name": "vec", "path": "coq/Vec*.v + harness/src/bin/vec_driver.rs + ocaml/vec_check.ml",
-             "serves_properties": ["C13", "C15", "C16", "C18", "C19"],
+             "serves_properties": ["C13", "C15", "C16", "C17", "C18", "C19"],
              "kind_free_text": "Coq model of Vec/RawVec with refinement theorems; differential execution against std::vec::Vec and the extracted model; drop ledger; zero-sized element section; C15/C16 also consume the string and box engines' reports"},
             {"name": "arena", "path": "coq/Arena*.v + harness/src/bin/arena_driver.rs + ocaml/arena_check.ml",
              "serves_properties": ["C01", "C02", "C03", "C04", "C06", "C07", "C08", "C09", "C10", "C11", "C12", "C18", "C20"],
